@@ -252,11 +252,21 @@ def run_entry(entry, n, seed, acc, tier):
                      for ei, c in enumerate(sg.node.children)
                      if c.kind == 'ele' and c.dtype == 'AN' and not c.codes and not c.ext and c.usage != 'N' and ei > 0 and ei < len(sg.vals)
                      and len(sg.vals[ei][0]) >= 3 and c.de not in ('1250', '1251') and not c.regex]
-            for _ in range(min(3, len(sites))):
+            isa_only = ch.chance(.3)
+            for _ in range(0 if isa_only else min(3, len(sites))):
                 sg, ei = sites[ch.integer(0, len(sites) - 1)]
                 v = sg.vals[ei][0]
                 k = len(v) // 2
                 sg.vals[ei] = [v[:k] + ch.choice(['*', ':', '~', '*', ':']) + v[k + 1:]]
+            if isa_only or ch.chance(.2):
+                # ... and in the fixed-width free text of the header (ISA02/04/06/08), which may then be the only place of the whole
+                # document that holds the character
+                for sg in doc.segs:
+                    if sg.id == 'ISA' and len(sg.vals) > 7:
+                        k_ = ch.choice([1, 3, 5, 7])
+                        v = sg.vals[k_][0]
+                        if len(v) >= 3:
+                            sg.vals[k_] = [v[:1] + ch.choice(['~', '*', ':']) + v[2:]]
         if ch.chance(.25):
             # a line break or a tab inside a value is data (the library's own 834_eol_in_element example): it comes back as it went
             sites = [(sg, ei) for sg in doc.segs if sg.id not in ('ISA', 'GS', 'ST', 'SE', 'GE', 'IEA')
